@@ -367,3 +367,7 @@ mod tests {
             });
     }
 }
+
+#[cfg(all(aws_s2n_quic_verif, test))]
+#[path = "/verif/harness/core/frame_stream.rs"]
+mod verif;
